@@ -173,6 +173,9 @@ def scenarios(family, tier, mode="th"):
         # the object it found is being removed (fix F12)
         add("unref", [C("store", "p1", "a", "none"), C("dii", c="a", val="badsum"), C("tag", "p1", "a")], pb=2)
         add("p1a", [C("delete", "p1"), C("tag", "p2", "a"), C("store", "p2", "a", "none")], pb=2)
+        # a delete that found the object missing, overtaken by a store and a delete of the same
+        # content (fix F13)
+        add("missing", [C("delete", "p1"), C("store", "p2", "a", "none"), C("delete", "p2")], pb=2)
         # reference-pid table: waiter = tag / delete
         add("empty", [C("tag", "p1", "a"), C("tag", "p1", "b"), C("tag", "p2", "b")], pb=2)
         add("empty", [C("tag", "p1", "a"), C("delete", "p1"), C("tag", "p2", "b")], pb=2)
@@ -185,9 +188,12 @@ def scenarios(family, tier, mode="th"):
         add("present", [C("putmeta", "p1", fmt="fD", ver="v2"), C("delmeta", "p1", fmt="nofmt"),
                         C("putmeta", "p1", fmt="f2", ver="v2")], pb=2)
     if tier == "thorough":
-        tri = quick[:8]
-        for start, calls in tri:
-            for c in menu[:6]:
+        # every quick pair with every call of the menu as a third participant
+        for start, calls in quick:
+            for c in menu:
+                if family == "C07" and start in ("empty", "missing") and \
+                        any(x["op"] == "dii" for x in calls + [c]):
+                    continue
                 add(start, calls + [c], pb=2)
     return out
 
